@@ -67,6 +67,10 @@ CHECKS = {
         technique="runtime monitoring by exhaustive domain sweeps through verif_hooks against big-integer definitions",
         text="Each scalar function is evaluated on its whole input domain (2^23-2^32 points; thorough is exhaustive: 3.4e11 evaluations; quick sweeps the 2^23/2^24 domains fully and the 2^32 domains at a seeded stride plus boundary windows) and compared with i64/i128 definitions; the checked build replays a strided subset so the crate's own range assertions monitor the same inputs.",
         design_ref="5/C15", note="Trusted base: the big-integer definitions (cross-checked against the reference model), rustc. mont_reduce is exhaustive over low words for 74 high words, not over all 2^54 inputs."),
+    "C18": dict(
+        technique="runtime monitoring of the real NTT pipelines through hooks against a schoolbook oracle; overflow-check panics; adversarial sparse-coset input search",
+        text="The transform / pointwise-multiply(-accumulate) / inverse-transform pipelines are replayed through verif_hooks in the exact compositions of ml_dsa.rs and compared with the O(n^2) negacyclic product for all basis polynomials x scalars, extremal sign patterns and random inputs at every call-site range, in release and checked (overflow-check) builds; sparse-coset adversarial rows (which drive the sum of the inverse NTT's inputs to 1.2 x 2^31) for ML-DSA-65/87 are checked at hook level and as FIPS-valid signatures through verify() against the reference.",
+        design_ref="5/C18, 3.2", note=REF_NOTE + " Overflow freedom is observed on the inputs driven, not proved; no adversarial witness exists for ML-DSA-44 with this construction."),
 }
 
 ALL = [f"C{i:02d}" for i in range(1, 19)]
